@@ -524,7 +524,7 @@ var boundedTests = map[string][]string{
 }
 
 var boundedBound = map[string]string{
-	"TestKvcBoundedLimit":            "stores of {0, 1, 5, 33, 70} pairs, batch sizes {1, 2, 32}, six statements (plain, ordered by total orders, aggregated), offsets {0, 1, 2, 31, 32, 33, 69, 70, 71} x counts {0, 1, 2, 31, 32, 33, 100}, row and batch mode against the slice of the unlimited result; DELETE ... LIMIT against the SELECT with the same limit (5 526 statements)",
+	"TestKvcBoundedLimit":            "stores of {0, 1, 5, 33, 70} pairs, batch sizes {1, 2, 32}, six statements (plain, ordered by total orders, aggregated), offsets {0, 1, 2, 31, 32, 33, 69, 70, 71} x counts {0, 1, 2, 31, 32, 33, 100, MaxInt64}, row and batch mode against the slice of the unlimited result; DELETE ... LIMIT against the SELECT with the same limit (6 300 statements)",
 	"TestKvcBoundedOrder":            "two stores (45 pairs with many ties; 10 pairs with integers around 2^53 and at the int64 limits), ten ORDER BY statements (text, integer, float, aggregate columns, ASC / DESC, up to three fields, a repeated field), batch sizes {1, 3, 32}, row and batch mode: permutation of the unordered result and adjacent rows in the documented order",
 	"TestKvcBoundedPutRemove":        "every `put` of three pairs over four keys and four value forms (literal, key, upper(key), key + 'x'): 4 096 statements on a store with guarded slices, polled twice; a `remove` of two keys after every 64th",
 	"TestKvcBoundedRewriteText":      "every `+` chain of at most four operands over {'a', 'b', key, upper(value), str(int(value)), lower(key)} in all parenthesisations (6 948 expressions x 3 pairs), evaluated before and after ExpressionOptimizer",
